@@ -368,6 +368,10 @@ def resume_run(job, out_fd):
     state = {"n": 0, "opens": 0}
     kill_after = job.get("kill_after")
     kill_open = job.get("kill_open")
+    # (auditor) kill_created=k: the process dies right AFTER the k-th record/md5/not-completed file of the store was created
+    # (open(2) with O_CREAT|O_TRUNC returned) and before any data reached it; log files are not counted
+    kill_created = job.get("kill_created")
+    state["created"] = 0
     if kill_after is not None:
         orig_main = writer.main
 
@@ -391,6 +395,11 @@ def resume_run(job, out_fd):
                 if kill_open is not None and state["opens"] == kill_open:
                     os._exit(77)
                 state["opens"] += 1
+                if not p.startswith(os.path.join(outdir, "logs") + os.sep):
+                    if kill_created is not None and state["created"] == kill_created:
+                        os.close(os.open(p, os.O_WRONLY | os.O_CREAT | os.O_TRUNC, 0o644))
+                        os._exit(77)
+                    state["created"] += 1
 
     sys.addaudithook(hook)
     res = {"exc": None}
@@ -402,6 +411,7 @@ def resume_run(job, out_fd):
     except BaseException as e:  # noqa
         res["exc"] = type(e).__name__ + ": " + str(e)[:200]
     res["opens"] = state["opens"]
+    res["created"] = state["created"]
     os.write(out_fd, json.dumps(res).encode())
     os._exit(0)
 
